@@ -8,7 +8,7 @@ os.makedirs(dst, exist_ok=True)
 shutil.copyfile(f"{out}/patch{n}.diff", f"{dst}/patch.diff")
 demo = f"{out}/demo{n}"
 if os.path.isdir(demo):
-    shutil.copytree(demo, f"{dst}/demo", dirs_exist_ok=True, ignore=shutil.ignore_patterns("target", "Cargo.lock", "tree"))
+    shutil.copytree(demo, f"{dst}/demo", dirs_exist_ok=True, ignore=shutil.ignore_patterns("target", "Cargo.lock", "tree", "palette_with_change", "wt2"))
 meta = json.load(open(f"{out}/meta{n}.json"))
 meta.update({"property": pid, "breaks": pid, "checked_with": f"tools/try_seeded.sh {pid} seeded/{name}/patch.diff", "caught_by": caught, "verdict": verdict,
              "confirmed": "patch applies to /repo (git apply --check); existing suite passes with it (agent log, 1262 passed); demo fails with / passes without (agent run); detection run by tools/try_seeded.sh"})
